@@ -17,6 +17,12 @@ typedef LAFEM::Transfer<MatCSR> TraCSR;
 template class Solver::MultiGridLevelStd<MatCSR, FilCSR, TraCSR>;
 template class Solver::MultiGridHierarchy<MatCSR, FilCSR, TraCSR>;
 template class Solver::MultiGrid<MatCSR, FilCSR, TraCSR>;
+// factory (function template): instantiated by a never-called function (rule E1.factory-forwards)
+inline void c09_inst_factory(std::shared_ptr<Solver::MultiGridHierarchy<MatCSR, FilCSR, TraCSR>> h)
+{
+  auto mg = Solver::new_multigrid(h, Solver::MultiGridCycle::W, 1, 2);
+  (void)mg;
+}
 
 #ifdef C09_THOROUGH
 typedef LAFEM::SparseMatrixBCSR<double, Index, 2, 2> MatBCSR;
